@@ -179,6 +179,30 @@ Theorem C01_collect_cache_transparent_refuted_before_fixd :
                 run fixed S D E fuel W = Done d [e] /\ run fixed_nomemo S D E fuel W = Done d [e].
 Proof. exact collect_cache_transparent_refuted_before_fixd. Qed.
 
+(** why: the memo key ([cache_key]: the type's name, then line and column of EVERY selection of
+    the list, as the code builds it) determines the object type and the list of positions — for
+    type names without zero byte, lines < 2^24 and columns < 2^32 — and inside one document with
+    distinct positions a list of positions determines the list of selection nodes. *)
+Theorem C01_cache_key_injective : forall ot ot' a b,
+  Forall (fun x => x <> 0%N) ot -> Forall (fun x => x <> 0%N) ot' ->
+  Forall (fun s => (line (sel_pos s) < 16777216)%N /\ (col (sel_pos s) < 4294967296)%N) a ->
+  Forall (fun s => (line (sel_pos s) < 16777216)%N /\ (col (sel_pos s) < 4294967296)%N) b ->
+  cache_key ot a = cache_key ot' b -> ot = ot' /\ map sel_pos a = map sel_pos b.
+Proof. exact (fun ot ot' a b => cache_key_inj ot ot' a b). Qed.
+
+(** ... and a key that keeps less is not transparent: with (type, first selection, number of
+    selections) ([coarse_key], mode [coarse_memo]) a fragment's field node that merges with
+    different sibling nodes at two spread sites makes two merged sub-selection lists collide
+    ({ p: o { ...F o { s } } q: o { ...F o { sn } } }  fragment F on O { o { __typename } }): the
+    response differs from the cache-free one, on a typed document with distinct positions. *)
+Theorem C01_collect_cache_transparent_refuted_coarse_key :
+  exists S D E fuel n W,
+    type_names_okb S = true /\ doc_positions_okb D = true /\ doc_ok S D E fuel n = true /\
+    run coarse_memo S D E fuel W <> run fixed_nomemo S D E fuel W /\
+    run fixed S D E fuel W = run fixed_nomemo S D E fuel W /\
+    exists ot l1 l2, l1 <> l2 /\ coarse_key ot l1 = coarse_key ot l2 /\ cache_key ot l1 <> cache_key ot l2.
+Proof. exact collect_cache_transparent_refuted_coarse_key. Qed.
+
 (** stage B: GetOperation.  The executor's loop over the definitions selects exactly the operation
     the specification determines (no name: the only operation; a name: the only operation of
     that name) ... *)
@@ -331,6 +355,8 @@ Proof. exact exec_data_finite_refuted_before_fix7. Qed.
 Print Assumptions C01_exec_total.
 Print Assumptions C01_exec_total_default_fuel.
 Print Assumptions C01_collect_cache_transparent_refuted_before_fixd.
+Print Assumptions C01_cache_key_injective.
+Print Assumptions C01_collect_cache_transparent_refuted_coarse_key.
 Print Assumptions C01_get_operation_refines_spec.
 Print Assumptions C01_run_request_selected.
 Print Assumptions C01_run_request_vars_refused.
